@@ -15,5 +15,12 @@ CONSTANTS
   Modes = {"exc"}
   D_ResidualAfterUnban = TRUE
   D_ExceptionsIgnoredWithRules = TRUE
-INVARIANTS TypeOK RefusedOnlyIf CutIsPrefix WithinLimitUntouched DisabledNeverDrops ExceptionNeverDropsStrict SpamOnlyIfBanned BanOnlyAfterThresholdStrict UnbanWithin VerdictDeterminedStrict
+  M_CapPerSource = TRUE
+  M_InvertAfterShortcut = TRUE
+  MSyms = {1, 2}
+  MDataMax = 3
+  MValMax = 2
+  MCi = {FALSE}
+  MPairLens = {1, 2}
+INVARIANTS TypeOK RefusedOnlyIf CutIsPrefix WithinLimitUntouched MatchAgrees DisabledNeverDrops ExceptionNeverDropsStrict SpamOnlyIfBanned BanOnlyAfterThresholdStrict UnbanWithin VerdictDeterminedStrict
 CHECK_DEADLOCK FALSE
